@@ -479,12 +479,20 @@ func pools(rhs any, full bool) (K, I, AB, P []any) {
 	// K: present names (never `_` prefixed: those are the documented extra keys) and absent ones
 	if m, ok := rhs.(map[string]any); ok {
 		var ks []string
+		var own []string
 		for k := range m {
 			if !strings.HasPrefix(k, "_") {
 				ks = append(ks, k)
+			} else {
+				own = append(own, k)
 			}
 		}
 		sort.Strings(ks)
+		// `_` prefixed names that are members of the value itself (they shadow the extra keys)
+		sort.Strings(own)
+		for _, k := range own {
+			K = append(K, k)
+		}
 		if len(ks) > 0 {
 			pick := []int{0}
 			if full {
@@ -504,7 +512,7 @@ func pools(rhs any, full bool) (K, I, AB, P []any) {
 	K = dedupe(K)
 	l := lenOf(rhs)
 	if full {
-		I = dedupe([]any{-2, -1, 0, 1, l - 1, l, l + 1, nil, 1.5})
+		I = dedupe([]any{-2, -1, 0, 1, l - 1, l, l + 1, nil, 1.5, -0.5, 0.5, -1.5, float64(l) - 0.5})
 		b := dedupe([]any{-2, -1, 0, 1, l - 1, l, l + 1, nil})
 		for _, x := range b {
 			for _, y := range b {
@@ -516,7 +524,7 @@ func pools(rhs any, full bool) (K, I, AB, P []any) {
 			P = append(P, rhs)
 		}
 	} else {
-		I = dedupe([]any{-1, 0, l})
+		I = dedupe([]any{-1, 0, l, -0.5})
 		AB = []any{[]any{1, nil}, []any{nil, -1}, []any{0, l + 1}, []any{-2, l - 1}}
 		P = append([]any{}, smallPool...)
 		if !containsBadUTF8(rhs) {
